@@ -24,6 +24,11 @@ type Block struct {
 	checks  []datalog.Check
 	context string
 	version uint32
+
+	// symbolsBase is, for a block produced by a BlockBuilder, one more than the length of the symbol
+	// table its terms were converted against (zero: not recorded). The block's symbol indexes are only
+	// meaningful on top of a table of that length.
+	symbolsBase int
 }
 
 func (b *Block) Code(symbols *datalog.SymbolTable) string {
